@@ -1,4 +1,5 @@
 import Abasic.Interp
+import Abasic.Proofs.CursorLemmas
 /-
   C08 — INPUT suspends and resumes without disturbing the rest of the program.
 -/
@@ -46,6 +47,139 @@ theorem item_suits (name : Str) (e : DataElement F) (h : endsWithDollar name = t
     · simp [Value.coerceFromData, hd, Value.matchesName]
     · have hd' : endsWithDollar name = false := by simpa using hd
       simp [Value.coerceFromData, hd', Value.matchesName]
+
+/-! ### the resumed turn -/
+
+omit [NumOps F] in
+/-- The current line's tokens do not depend on the pending reply, the cursor
+    index, the read counter or the output queue. -/
+theorem tokens_stable (σ σ' : St F) (ts : List (Token F)) (h : tokens σ = .ok ts σ)
+    (hl : σ'.lines = σ.lines) (hi : σ'.imm = σ.imm) (hloc : σ'.loc.line = σ.loc.line) :
+    tokens σ' = .ok ts σ' := Proofs.Cursor.tokens_congr σ σ' ts h hl hi hloc
+
+/-- A successful coercion produces a value of the variable's type. -/
+theorem coerce_matches (name : Str) (e : DataElement F) (v : Value F)
+    (h : Value.coerceFromData name e = .ok v) : v.matchesName name = true := by
+  unfold Value.coerceFromData at h
+  by_cases hd : endsWithDollar name = true
+  · rw [if_pos hd] at h
+    cases e <;> (simp only [Except.ok.injEq] at h; subst h; simp [Value.matchesName, hd])
+  · rw [if_neg hd] at h
+    cases e with
+    | str s => cases h
+    | num x => simp only [Except.ok.injEq] at h; subst h; simpa [Value.matchesName] using hd
+
+/-- `parse_lvalue` on a scalar target: the symbol is consumed, one look-ahead
+    read sees that no `(` follows. -/
+theorem parseLValue_scalar (ev : Evals F) (σ : St F) (ts : List (Token F)) (name : Str)
+    (hts : tokens σ = .ok ts σ)
+    (hsym : ts[σ.loc.idx]? = some (.symbol name))
+    (hnp : ts[σ.loc.idx + 1]? ≠ some (.kw .LeftParen)) :
+    parseLValue ev σ =
+      .ok { name := name, index := none }
+        { σ with loc := { σ.loc with idx := σ.loc.idx + 1 }, reads := σ.reads + 2 } := by
+  have h1 := Proofs.Cursor.next_some σ ts _ hts hsym
+  have hts' : tokens ({ σ with reads := σ.reads + 1, loc := { σ.loc with idx := σ.loc.idx + 1 } } : St F) =
+      .ok ts { σ with reads := σ.reads + 1, loc := { σ.loc with idx := σ.loc.idx + 1 } } :=
+    Proofs.Cursor.tokens_congr σ _ ts hts rfl rfl rfl
+  have h2 := Proofs.Cursor.peekIsKw_false _ ts .LeftParen hts' (by
+    intro t hq
+    cases t with
+    | kw k => cases k <;> first | rfl | (exfalso; exact hnp hq)
+    | _ => rfl)
+  simp only [parseLValue, bind, M.bindM, h1, optionalArrayIndex, h2, pure, M.pureM]
+  rfl
+
+/-- **input_resume_scalar.**  The resumed INPUT turn with a reply whose first
+    item suits the (scalar) target: the turn is exactly the assignment of the
+    coerced value, plus `?EXTRA IGNORED` precisely when the reply held more
+    than one item or text after the terminating colon. -/
+theorem input_resume_scalar (ev : Evals F) (σ : St F) (ts : List (Token F)) (text name : Str)
+    (first : DataElement F) (rest : List (DataElement F)) (n : Nat) (v : Value F)
+    (hin : σ.input = some text)
+    (hts : tokens σ = .ok ts σ)
+    (hsym : ts[σ.loc.idx]? = some (.symbol name))
+    (hnp : ts[σ.loc.idx + 1]? ≠ some (.kw .LeftParen))
+    (hpd : parseData (F := F) text = (first :: rest, n))
+    (hco : Value.coerceFromData name first = .ok v) :
+    inputStatement ev σ =
+      .ok () { σ with input := none, loc := { σ.loc with idx := σ.loc.idx + 1 }, vars := alSet name v σ.vars, reads := σ.reads + 2, out := if (!rest.isEmpty || decide (n < len8 text)) = true then .extraIgnored :: σ.out else σ.out } := by
+  have hm := coerce_matches name first v hco
+  have htk := reply_parse σ text hin
+  rw [hpd] at htk
+  have hts' : tokens ({ σ with input := none } : St F) = .ok ts { σ with input := none } :=
+    Proofs.Cursor.tokens_congr σ _ ts hts rfl rfl rfl
+  have hlv := parseLValue_scalar ev ({ σ with input := none } : St F) ts name hts' hsym hnp
+  simp only [inputStatement, bind, M.bindM, htk, hlv, hco, assignValue, setVar, hm, if_true, M.modify]
+  by_cases hx : (!rest.isEmpty || decide (n < len8 text)) = true
+  · rw [if_pos hx, if_pos hx]; rfl
+  · rw [if_neg hx, if_neg hx]; rfl
+
+omit [NumOps F] in
+/-- Searching backwards from two tokens after an INPUT token, the token in
+    between not being INPUT, finds that INPUT token. -/
+theorem find_input_skip (ts : List (Token F)) (i : Nat) (t u : Token F) (h : ts[i]? = some t)
+    (hk : t.isKw .Input = true) (hu : ts[i + 1]? = some u) (huk : u.isKw .Input = false) :
+    findInputBefore ts (i + 2) = some i := by
+  simp [findInputBefore, h, hk, hu, huk]
+
+/-- **input_reenter_scalar.**  The resumed INPUT turn with a reply whose first
+    item does not suit the (scalar, numeric) target: `?REENTER` is emitted, the
+    reply is consumed, the interpreter awaits input again with the cursor back
+    ON the INPUT token; variables, arrays, stack, loops (indeed everything
+    else but the read counter) are untouched. -/
+theorem input_reenter_scalar (ev : Evals F) (σ : St F) (ts : List (Token F)) (text name : Str)
+    (first : DataElement F) (rest : List (DataElement F)) (n : Nat)
+    (hin : σ.input = some text)
+    (hts : tokens σ = .ok ts σ)
+    (hidx : σ.loc.idx ≥ 1)
+    (hinp : ts[σ.loc.idx - 1]? = some (.kw .Input))
+    (hsym : ts[σ.loc.idx]? = some (.symbol name))
+    (hnp : ts[σ.loc.idx + 1]? ≠ some (.kw .LeftParen))
+    (hpd : parseData (F := F) text = (first :: rest, n))
+    (hco : Value.coerceFromData name first = .error .dataTypeMismatch) :
+    inputStatement ev σ =
+      .ok () { σ with input := none, loc := { σ.loc with idx := σ.loc.idx - 1 }, state := .awaitingInput, out := .reenter :: σ.out, reads := σ.reads + 4 } := by
+  obtain ⟨i, hi⟩ : ∃ i, σ.loc.idx = i + 1 := ⟨σ.loc.idx - 1, by omega⟩
+  rw [hi] at hsym hnp hinp
+  simp only [Nat.add_sub_cancel] at hinp
+  have htk := reply_parse σ text hin
+  rw [hpd] at htk
+  have hts' : tokens ({ σ with input := none } : St F) = .ok ts { σ with input := none } :=
+    Proofs.Cursor.tokens_congr σ _ ts hts rfl rfl rfl
+  have hlv := parseLValue_scalar ev ({ σ with input := none } : St F) ts name hts'
+    (by simpa [hi] using hsym) (by simpa [hi] using hnp)
+  have hf : findInputBefore ts (i + 2) = some i :=
+    find_input_skip ts i _ _ hinp (by simp [Token.isKw]) hsym (by simp [Token.isKw])
+  have hts'' : ∀ s : St F, s.lines = σ.lines → s.imm = σ.imm → s.loc.line = σ.loc.line →
+      tokens s = .ok ts s := fun s a b c => Proofs.Cursor.tokens_congr σ s ts hts a b c
+  simp only [inputStatement, bind, M.bindM, htk, hlv, hco, emit, M.modify, rewindAndAwaitInput,
+    rewindBeforeInput, M.get]
+  have hts2 := hts'' { σ with input := none, loc := { σ.loc with idx := σ.loc.idx + 1 }, reads := σ.reads + 2, out := .reenter :: σ.out } rfl rfl rfl
+  simp only [hts2]
+  simp only [hi, hf, M.set, Nat.add_sub_cancel]
+  congr 1
+  have : i + 1 + 1 - i = 2 := by omega
+  simp only [this]
+
+/-- **reply_roundtrip.**  The text handed to `provide_input` is exactly what the
+    resumed INPUT statement parses: `takeInput` after `provideInput text`
+    yields the DATA parse of `text` (and whether bytes were left over), and
+    consumes the reply. -/
+theorem reply_roundtrip (σ : St F) (text : Str) (h : σ.state = .awaitingInput) :
+    (do provideInput text; takeInput) σ =
+      .ok (some ((parseData (F := F) text).1, decide ((parseData (F := F) text).2 < len8 text)))
+        { σ with input := none, state := .running } := by
+  have hp : provideInput text σ = .ok () { σ with input := some text, state := .running } := by
+    simp [provideInput, bind, M.bindM, M.get, h, M.set]
+  simp only [bind, M.bindM, hp]
+  exact reply_parse _ text rfl
+
+/-- Non-vacuity of `input_reenter_scalar`'s cursor hypotheses: `10 INPUT X`
+    resumed with the cursor just after INPUT. -/
+example : let ts : List (Token Unit) := [.kw .Input, .symbol ['X']]
+    ts[1 - 1]? = some (.kw .Input) ∧ ts[1]? = some (.symbol ['X']) ∧ ts[1 + 1]? ≠ some (.kw .LeftParen) := by
+  exact ⟨rfl, rfl, by simp⟩
 
 /-- Non-vacuity: the cursor just after `INPUT` in `PRINT : INPUT X`. -/
 example : findInputBefore (F := Unit) [.kw .Print, .kw .Colon, .kw .Input, .symbol ['X']] 3 = some 2 := by decide
